@@ -113,4 +113,20 @@ def check {σ : Type} (c : SCfg) (sc : Scanner σ) (op : Op) (cu : Cursor) (r : 
     | .eos e => if eosOk c cu e then some cu else none
     | _ => none
 
+def judgeConj {σ : Type} (c : SCfg) (sc : Scanner σ) : List Op → List Result → Cursor → Option Cursor
+  | [], [], cu => some cu
+  | o :: os, r :: rs, cu =>
+    match check c sc o cu r with
+    | none => none
+    | some cu' => if r.isErr then (if rs = [] then some cu' else none) else judgeConj c sc os rs cu'
+  | _, _, _ => none
+
+def judge {σ : Type} (c : SCfg) (sc : Scanner σ) : List (List Op) → List (List Result) → Cursor → Option Cursor
+  | [], [], cu => some cu
+  | q :: qs, r :: rs, cu =>
+    match judgeConj c sc q r cu with
+    | none => none
+    | some cu' => judge c sc qs rs cu'
+  | _, _, _ => none
+
 end PrologVerif.Stream.SegSpec
